@@ -381,6 +381,19 @@ func c13LeaderCase(o *hx.Out, shard int64, tag string, ntKey string, body func(l
 
 func c13LeaderMain(o *hx.Out, f hx.Flags) {
 	rng := hx.NewRng(f.Seed ^ 0x13)
+	// every combination of absent / present-zero optional fields through WriteBlock, then a restart and a follower
+	c13LeaderCase(o, 3, "c13leader-optional", "optional", func(l *leaderEnv) {
+		for i, w := range c13OptionalSweep() {
+			w.offset, w.ts = 0, uint64(1000+i)
+			if l.do(w.String()) == "err" {
+				if l.do("B:2") != "ok" {
+					return
+				}
+				break
+			}
+		}
+		l.do("F:3")
+	})
 	for c := 0; c < f.N; c++ {
 		crng := rng.Fork()
 		shard := int64(1 + crng.Intn(9))
